@@ -171,8 +171,10 @@ def splitFirstRest (msg : Bytes) : Bytes × Bytes × Bool :=
     | some ix => (s.take ix, s.drop (ix + 1), eol)
     | none => (s, [], eol)
 
-def splitLines (s : Bytes) : List Bytes :=
-  (s.foldr (fun c acc => if c == 10 then [] :: acc else match acc with | l :: ls => (c :: l) :: ls | [] => [[c]]) [[]])
+def splitStep (c : UInt8) (acc : List Bytes) : List Bytes :=
+  if c == 10 then [] :: acc else match acc with | l :: ls => (c :: l) :: ls | [] => [[c]]
+
+def splitLines (s : Bytes) : List Bytes := s.foldr splitStep [[]]
 
 def rightPad (s : Bytes) (w : Nat) : Bytes := s ++ List.replicate (w - s.length) 32
 
